@@ -4,6 +4,7 @@
 -/
 import PcVerif.Model.Detect
 import PcVerif.Lemmas.StrLemmas
+import PcVerif.Lemmas.DetectOwn
 namespace PcVerif.Props.C20
 open PcVerif PcVerif.Detect PcVerif.Str
 
@@ -115,5 +116,43 @@ theorem detect_none_iff (s : Str) (h : detectFormat s = .ok none) :
 
 /-- non-vacuity: a concrete SRT document is detected as SRT although SCC/… are later in the order -/
 example : detectFormat "1\n00:00:01,000 --> 00:00:02,000\nhi\n".toList = .ok (some .srt) := by decide
+
+/-! ### pycaption's own output (third clause) — for the writers modelled as whole documents -/
+
+/-- **C20 (own output, SRT).** for every list of cues (any number, any instants, any nodes) whose cues have visible text
+    and whose text lines contain no marker of another format (`</tt>` and `<sami` in any letter case, `WEBVTT`), the
+    document the SRT writer produces is detected as SRT: no earlier reader in the order accepts it — a marker cannot
+    arise across line boundaries or from index and timing lines — and `SRTReader.detect` does -/
+theorem detect_own_srt (capsIn : List RCap)
+    (hne : Srt.mergeSame [] capsIn ≠ [])
+    (hv : ∀ c ∈ Srt.mergeSame [] capsIn, Srt.textsOf c.nodes ≠ [])
+    (hbr : ∀ c ∈ Srt.mergeSame [] capsIn, ∀ t ∈ Srt.textsOf c.nodes, Srt.NoBreak t)
+    (hmk : ∀ c ∈ Srt.mergeSame [] capsIn, ∀ t ∈ Srt.textsOf c.nodes, Detect.NoMarker t) :
+    detectFormat (Srt.write [capsIn]) = .ok (some .srt) :=
+  Detect.detect_own_srt capsIn hne hv hbr hmk
+
+/-- **C20 (own output, WebVTT).** for every list of captions made of text lines — ANY characters: the writer escapes
+    `<`, so `</tt>` cannot occur, and the document starts with `WEBVTT` — the WebVTT writer's document is detected as
+    WebVTT -/
+theorem detect_own_vtt (cs : List VttW.CapIn) (hok : ∀ c ∈ cs, c.OK) :
+    detectFormat (VttW.writePlain (cs.map VttW.toRCap)) = .ok (some .webvtt) :=
+  Detect.detect_own_vtt cs hok
+
+/-- **C20 (own output, MicroDVD).** for every non-empty list of captions made of text lines none of which contains
+    `</tt>` (in any letter case; DFXP is the only reader asked before MicroDVD), the MicroDVD writer's document is
+    detected as MicroDVD -/
+theorem detect_own_mdvd (cs : List VttW.CapIn) (hne : cs ≠ []) (hok : ∀ c ∈ cs, MicroDvd.CapOK c)
+    (hmk : ∀ c ∈ cs, ∀ t ∈ c.2.2, Str.contains Detect.dfxpMarker (Str.lower t) = false) :
+    detectFormat (MicroDvd.write [cs.map VttW.toRCap]) = .ok (some .microdvd) :=
+  Detect.detect_own_mdvd cs hne hok hmk
+
+/-- the marker hypothesis is needed: text carrying `</TT>` makes the SRT writer's document look like DFXP -/
+example : Detect.NoMarker "see </TT> here".toList = False := by
+  simp only [Detect.NoMarker, eq_iff_iff, iff_false, not_and]
+  intro h; revert h; decide
+
+/-- non-vacuity: an ordinary line — with `<`, `&` and capital letters — meets the marker hypothesis -/
+example : Detect.NoMarker "Tom & <Jerry> WEB VTT".toList := by
+  refine ⟨?_, ?_, ?_⟩ <;> decide
 
 end PcVerif.Props.C20
